@@ -56,6 +56,11 @@ CHECKS = {
    note="Trusted: jxlw::model::composite. Not covered: patches (no patch writer), save_before_ct on normal frames, cropped ReferenceOnly frames, the EC blend-source zone where spec readings differ.",
    technique="deviation-bounded + full-product enumeration of frame sequences vs reference compositor",
    design_ref="4/C05", engine="mc"),
+ "C20": dict(category="model_checking",
+   text="Stateless model checking of the real render-handle code under a cooperative scheduler (one controlled OS thread runs at a time; scheduling points = every Mutex lock, Condvar wait/notify of the protocol, via cfg-gated shims): 24 (quick) / 51 scenarios = images with reference chains x 2-3 caller threads on same/different keyframes x optional injected allocation failure, ALL schedules within 2 (quick) / 3 (thorough) deviations from the default schedule, every execution run to completion. Oracle: no deadlock (no enabled thread while a caller waits), every caller returns, every Ok bit-identical to the sequential render, errors only with an injected fault, a frame's render operation never runs twice at once nor twice per region.",
+   note="Assumes the shimmed Mutex/Condvar operations are the only blocking synchronisation of the protocol (a 60 s no-progress watchdog turns anything else into a machinery failure, not a verdict). Weak-memory effects and data races not crossing a scheduling point are outside. Largest scenario capped (reported).",
+   technique="stateless model checking: exhaustive schedule enumeration up to a deviation bound on the real code under a controlled scheduler",
+   design_ref="2.3, 4/C20", engine="mc"),
 }
 NOT_YET = "check not built yet in this round (work in progress; see DESIGN.md section 10)"
 NA = {}
